@@ -18,6 +18,7 @@ SEM = {
     'C10': dict(viol={'C10'}, phases={'ctx', 'err'}, ctx_fields=None, ctx_kinds={'at', 'abs', 'rel'}),
     'C02': dict(viol={'C02'}, phases={'paths', 'err'}, ctx_fields=None, ctx_kinds=None),
     'C04': dict(viol={'C04'}, phases={'cfg', 'func', 'err'}, ctx_fields=None, ctx_kinds=None),
+    'C05': dict(viol={'C05'}, phases={'subs', 'func', 'err'}, ctx_fields=None, ctx_kinds=None),
 }
 
 # which fields of a violation a finding may explain
@@ -76,9 +77,11 @@ def make_items(cx, spec, nprog, nenv, streams=('corpus', 'fragment', 'shapes')):
 
 
 def replay_findings(cx, pid):
-    """replay the witnesses of the listed findings of this property on the real code"""
+    """replay the witnesses of the listed findings of this property on the real code: a known finding that still fails
+    is printed as KNOWN-FINDING; a fixed finding's witness must pass (a regression is an ordinary violation)"""
+    own = SEM.get(pid, {'viol': {pid}})['viol']
     for f in cx.findings:
-        if pid not in f.get('properties', []) or f.get('status') != 'known' or not f.get('witness'):
+        if pid not in f.get('properties', []) or not f.get('witness'):
             continue
         wp = os.path.join(ROOT, f['witness'])
         if not os.path.exists(wp):
@@ -88,9 +91,15 @@ def replay_findings(cx, pid):
             continue
         item = {'name': 'finding:' + f['id'], 'src': w['src'], 'envs': w['envs'], 'seed': 0, 'nenv': 0}
         r = engine.process(item)
-        hit = [v for v in r.get('viol_impl', []) if v['prop'] in SEM.get(pid, {'viol': {pid}})['viol']]
-        if hit:
+        hit = [v for v in r.get('viol_impl', []) if v['prop'] in own]
+        if not hit:
+            continue
+        if f.get('status') == 'known':
             cx.known_seen[f['id']] = f"{f['what']} [witness {f['witness']}: {hit[0]['detail'][:120]}]"
+        else:
+            for v in hit[:3]:
+                cx.violations.append({'kind': 'regression of fixed finding ' + f['id'], 'program': f['witness'], 'prop': v['prop'], 'field': v['field'],
+                                      'where': v['where'], 'detail': v['detail'], 'src': w['src'], 'env': w['envs'][0]})
 
 
 def classify(cx, pid, spec, results):
@@ -137,7 +146,7 @@ def semantic_check(pid):
         if replay is not None:
             return do_replay(cx, pid, spec, replay)
         nprog, nenv = volumes(cx, 90, 100)
-        streams = ('corpus', 'fragment', 'shapes', 'direct') + (('layout',) if pid == 'C04' else ())
+        streams = ('corpus', 'fragment', 'shapes', 'direct') + (('layout',) if pid in ('C04', 'C05') else ())
         items = make_items(cx, spec, nprog, nenv, streams)
         results = engine.run_items(items)
         src_of = {it['name']: it['src'] for it in items}
